@@ -320,6 +320,7 @@ def main():
     himpl = strip_comments(read("src/delaunay_core/handles/handle_impls.rs"))
     pubh = strip_comments(read("src/delaunay_core/handles/public_handles.rs"))
     dcel_src = strip_comments(read("src/delaunay_core/dcel.rs"))
+    circ = strip_comments(read("src/delaunay_core/handles/iterators/circular_iterator.rs"))
     cdt_src = strip_comments(read("src/cdt.rs"))
     out = []
     w = out.append
@@ -822,6 +823,51 @@ def main():
         w("def flagEntryOfDirected (e : Nat) : Nat := hAsUndirected e")
         w("")
     guarded("handles", handles)
+
+    # --- CircularIterator (circular_iterator.rs): statement-level shape check of new / new_empty /
+    # next / next_back, then a fixed transliteration (the early return becomes the outer `if`)
+    def circiter():
+        def nb(n, after=None):
+            return re.sub(r"\s+", "", find_fn(circ, n, after)[1])
+        it = "impl<'a, V, DE, UE, F, NB: NextBackFn> Iterator for CircularIterator"
+        de = "impl<'a, V, DE, UE, F, NB: NextBackFn> DoubleEndedIterator"
+        want = {
+            ("new", None): "CircularIterator{current_handle:start_edge,final_handle:start_edge,iteration_finished:false,next_back_fn:Default::default(),}",
+            ("new_empty", None): "CircularIterator{current_handle:some_edge,final_handle:some_edge,iteration_finished:true,next_back_fn:Default::default(),}",
+            ("next", it): "ifself.iteration_finished{returnNone;}letresult=self.current_handle;self.current_handle=NB::next(self.current_handle);ifself.current_handle==self.final_handle{self.iteration_finished=true;}Some(result)",
+            ("next_back", de): "ifself.iteration_finished{returnNone;}self.final_handle=NB::next_back(self.final_handle);ifself.current_handle==self.final_handle{self.iteration_finished=true;}Some(self.final_handle)",
+        }
+        for (n, after), wv in want.items():
+            if nb(n, after) != wv:
+                raise ValueError(f"{n}: unexpected shape: {nb(n, after)[:100]}")
+        impl = himpl[himpl.index("impl NextBackFn for CCWEdgesNextBackFn"):]
+        mp = {"edge_handle.ccw()": "ccw", "edge_handle.cw()": "cw", "edge_handle.next()": "next", "edge_handle.prev()": "prev", "edge_handle.rev()": "rev"}
+        n1, n2 = find_fn(impl, "next")[1].strip(), find_fn(impl, "next_back")[1].strip()
+        if n1 not in mp or n2 not in mp:
+            raise ValueError("CCWEdgesNextBackFn: unexpected stepping function")
+        w("/-- `CCWEdgesNextBackFn::{next,next_back}`: the links `VertexHandle::out_edges` follows -/")
+        w(f"def outStep : DLink := .{mp[n1]}")
+        w(f"def outStepBack : DLink := .{mp[n2]}")
+        w("/-- `CircularIterator` (circular_iterator.rs): `current_handle`, `final_handle`, `iteration_finished`;")
+        w("    `step` / `back` stand for `NB::next` / `NB::next_back` -/")
+        w("structure CI where")
+        w("  cur : Nat")
+        w("  fin : Nat")
+        w("  done : Bool")
+        w("deriving DecidableEq, Repr")
+        w("def CI.new (start_edge : Nat) : CI := ⟨start_edge, start_edge, false⟩")
+        w("def CI.newEmpty (some_edge : Nat) : CI := ⟨some_edge, some_edge, true⟩")
+        w("def CI.next (step : Nat → Nat) (c : CI) : CI × Option Nat :=")
+        w("  if c.done then (c, none) else")
+        w("  let result := c.cur")
+        w("  let cur' := step c.cur")
+        w("  ({ cur := cur', fin := c.fin, done := if cur' = c.fin then true else c.done }, some result)")
+        w("def CI.nextBack (back : Nat → Nat) (c : CI) : CI × Option Nat :=")
+        w("  if c.done then (c, none) else")
+        w("  let fin' := back c.fin")
+        w("  ({ cur := c.cur, fin := fin', done := if c.cur = fin' then true else c.done }, some fin')")
+        w("")
+    guarded("circular_iterator", circiter)
 
     w("end Spade.Generated")
     text = "\n".join(out) + "\n"
